@@ -15,6 +15,8 @@
    those rest on the correspondence check under catch_unwind and are reported as partial. *)
 From FR Require Import Base State Utf8 Utf8Facts Chars Ast Analyze Sem SemSound Api ApiProofs
                        Vm Compile Machine Atomize CompileCorrect RunCorrect EndToEnd.
+From FR Require Import Param ArrowA KeepOut ApiVm.
+
 From Coq Require Import NArith Lia.
 
 Theorem C05_reference_offsets_valid : forall cs cx, valid_chars cs -> c_text cx = concat cs ->
@@ -142,6 +144,54 @@ Qed.
 Check C05_reference_offsets_valid.
 Check C05_split_no_panic.
 
+
+(* (6) the clause "SearchOK" that (2) assumes, PROVED for the compiled search: on a VM-compiled
+   pattern inside the end-to-end theorem with no \K under a look-behind (that exception is known
+   finding F-keepout-lb), searched from any character boundary of a valid UTF-8 text, a reported
+   match starts at or after the search offset, start <= end <= |text|, both on boundaries
+   (Proofs/KeepOut.v + EndToEnd.v); hence find_iter / split / try_replacen over the compiled search
+   never slice out of order, out of range or off a boundary (Proofs/ApiVm.v: the iterators only
+   search from boundaries). *)
+Theorem C05_vm_search_ok : forall cs bs e p, VmScope cs bs e p ->
+  forall ng max_st limit fuelv,
+  forall pos f sv, bnd cs pos -> (vsearch cs p ng max_st limit fuelv) pos f = SSome sv ->
+  exists a b, span_of sv = Some (a, b) /\ pos <= a /\ a <= b /\ b <= length (concat cs) /\
+              is_boundary (concat cs) a = true /\ is_boundary (concat cs) b = true.
+Proof. intros cs bs e p (W & Hl & Hc & Ho & Hr & Hk) ng max_st limit fuelv. eapply vsearch_ok; eauto. Qed.
+
+Theorem C05_vm_iter_spans_valid : forall cs bs e p, VmScope cs bs e p ->
+  forall ng max_st limit fuelv,
+  (forall pos f, vsearch cs p ng max_st limit fuelv pos f <> SErr EFuel) ->
+  forall n, chain (concat cs) 0 (collect (concat cs) (vsearch cs p ng max_st limit fuelv) n m_init).
+Proof. intros cs bs e p (W & Hl & Hc & Ho & Hr & Hk) ng max_st limit fuelv Hnf. eapply vm_find_iter_chain; eauto. Qed.
+
+Theorem C05_vm_split_never_panics : forall cs bs e p, VmScope cs bs e p ->
+  forall ng max_st limit fuelv,
+  (forall pos f, vsearch cs p ng max_st limit fuelv pos f <> SErr EFuel) ->
+  forall n, Forall (fun pc => pc <> PcPanic) (split_collect (concat cs) (vsearch cs p ng max_st limit fuelv) n sp_init).
+Proof. intros cs bs e p (W & Hl & Hc & Ho & Hr & Hk) ng max_st limit fuelv Hnf. eapply vm_split_no_panic; eauto. Qed.
+
+Theorem C05_vm_replace_never_panics : forall cs bs e p, VmScope cs bs e p ->
+  forall ng max_st limit fuelv,
+  (forall pos f, vsearch cs p ng max_st limit fuelv pos f <> SErr EFuel) ->
+  forall rep lim, try_replacen (concat cs) rep (mnext (concat cs) (vsearch cs p ng max_st limit fuelv)) lim <> RPanicR /\
+                  try_replacen (concat cs) rep (cnext (concat cs) (vsearch cs p ng max_st limit fuelv)) lim <> RPanicR.
+Proof.
+  intros cs bs e p (W & Hl & Hc & Ho & Hr & Hk) ng max_st limit fuelv Hnf rep lim. split; [|rewrite try_replacen_paths_agree]; eapply vm_replace_no_panic; eauto.
+Qed.
+
+(* non-vacuity of VmScope: (?<=a)(b|bc)\b, a VM-compiled pattern *)
+Example vmscope_ex :
+  let e := Concat [LookAround (Literal [97] false) LookBehind;
+                   Group (Alt [Literal [98] false; Concat [Literal [98] false; Literal [99] false]]);
+                   Assertion WordBoundary] in
+  exists p, VmScope [[97]; [98]; [99]] (fun _ => false) e p /\ vm_scope_b (fun _ => false) e = true.
+Proof.
+  eexists. split; [|vm_compute; reflexivity]. split; [repeat constructor|]. split; [vm_compute; reflexivity|].
+  split; [vm_compute; reflexivity|]. split; [|split; cbn; repeat split; auto].
+  unfold oke. cbn. repeat split; auto; try lia; try reflexivity; try discriminate.
+Qed.
+
 Print Assumptions C05_reference_offsets_valid.
 Print Assumptions C05_iter_spans_valid.
 Print Assumptions C05_split_no_panic.
@@ -150,3 +200,7 @@ Print Assumptions C05_vm_never_panics.
 Print Assumptions C05_vm_offsets_valid.
 Print Assumptions C05_vm_never_panics_any_program.
 Print Assumptions C05_vm_offsets_valid_any_program.
+Print Assumptions C05_vm_search_ok.
+Print Assumptions C05_vm_iter_spans_valid.
+Print Assumptions C05_vm_split_never_panics.
+Print Assumptions C05_vm_replace_never_panics.
